@@ -132,7 +132,7 @@ def build_converter(it, ptype, dtype, scale=None, fixed=None, getter=None):
     run.dom = dom = K.Dom(run, ptype)
     pc = make_pc(it, dom, scale)
     run.opts = opts = Opts(run, fixed)
-    SK.LOG_OBLIGATION[0] = LOGDOM
+    SK.LOG_OBLIGATION[0] = None         # definedness of np.log is an obligation of the scaler_from_spec family only
     cls = core().classes['DefaultModelInputConverter']
     args = [pc] if getter is None else [pc, getter]
     self = it.call(cls, args, opts.kwargs(dtype))
@@ -484,7 +484,7 @@ def scaler_entry(dtype, scale, degenerate):
             run.stage = 'built'
             return bij
         run.stage = 'run'
-        SK.LOG_OBLIGATION[0] = LOGDOM
+        SK.LOG_OBLIGATION[0] = None
         run.x, run.y, run.s = run.fresh('x', xreal.XReal), run.fresh('y', xreal.XReal), run.fresh('s', xreal.XReal)
         for t in (run.x, run.y):
             run.assume(z3.And(xreal.is_fin(t), lo <= xreal.r(t), xreal.r(t) <= hi))
